@@ -1,9 +1,12 @@
 import BytesVerif.Judge.C14
+import BytesVerif.Judge.C15
 
 def main (args : List String) : IO UInt32 := do
   match args with
   | ["cert-c14"] => BytesVerif.Judge.C14.certSearch
   | ["cmp"] => BytesVerif.Judge.C14.run
+  | ["cert-c15"] => BytesVerif.Judge.C15.certSearch
+  | ["fmt"] => BytesVerif.Judge.C15.run
   | _ => do
     IO.eprintln s!"judge: unknown mode {args}"
     return 2
